@@ -17,6 +17,8 @@ Definition u16at (i : N) (l : bytes) : result N :=
 Definition u32at (i : N) (l : bytes) : result N :=
   a <- idx i l;; b <- idx (i + 1) l;; c <- idx (i + 2) l;; d <- idx (i + 3) l;; Ok (be32 a b c d).
 
+(* Repaired = /repo HEAD; Defective = the code before 7065ffb / 890d5a0 (declared PPP length below 4 panicked), kept only
+   for the historical *_refuted / *_repair_conservative theorems; the correspondence check uses Repaired alone *)
 Inductive variant := Repaired | Defective.
 
 (* projected observables *)
